@@ -403,7 +403,9 @@ func (c *Client) Initialize(ctx context.Context, initReq *InitializeRequest) (*I
 	if t, ok := c.transport.(*streamableHTTPClientTransport); ok {
 		// Start GET SSE connection asynchronously to avoid blocking.
 		// Pass the context so GET SSE can inherit context values.
-		go t.establishGetSSEConnection(ctx)
+		// Not in a goroutine: the stream must be registered (and thus cancellable by Close) before Initialize
+		// returns; establishGetSSEConnection itself only spawns the connection and does not block.
+		t.establishGetSSEConnection(ctx)
 	}
 
 	return initResult, nil
